@@ -106,9 +106,20 @@ package builder
 //@ spec isSimple(a gmodel.Assignment, lhs string, rhs string, e bool) bool = a == box(gmodel.SimpleField{LHS: lhs, RHS: rhs, Error: e})
 //@ spec isNoMatch(a gmodel.Assignment, lhs string) bool = a == box(gmodel.NoMatchField{LHS: lhs})
 //@
+// The address operator (C01): Go allows & on a variable and on a field of an addressable struct or of a struct
+// reached through a pointer, not on the result of a call or of a conversion (Go spec, Address operators).
+//@ spec addressable(n bmodel.Node) bool =
+//@     is(n, bmodel.RootNode) || (is(n, bmodel.StructFieldNode) &&
+//@         (isPtrT(bmodel.exprType(as(n, bmodel.StructFieldNode).parent)) || addressable(as(n, bmodel.StructFieldNode).parent)))
+//@ func isAddressable(n) (r)
+//@   requires bmodel.wfNode(n)
+//@   reveal wfNode, exprType, parentOf
+//@   ensures {C01} r == addressable(n)
+//@
 //@ func (*assignmentBuilder).createWithConverter$1() (r)
 //@   inline
 //@   loop 1 invariant bmodel.wfNode(root) && plainPath(root)
+//@   atcall NewConverterNode: {C01} isPtrT(converter.argType) && !isPtrT(bmodel.exprType($arg0)) && !assignable(bmodel.exprType($arg0), converter.argType) ==> addressable($arg0)
 //@
 //@ func (*assignmentBuilder).createWithConverter(b, lhs, rhs, converter) (a, err)
 //@   reveal wfNode, exprType, returnsError, parentOf, objNameOf
